@@ -1009,6 +1009,7 @@ func mutexState(fr *frame, recv value) *value {
 
 func extMutexLock(fr *frame, args []value) value {
 	s := mutexState(fr, args[0])
+	fr.i.px.syncPoint(fr, s)
 	if (*s).(int32) != 0 {
 		px := fr.i.px
 		px.violation("hang", "deadlock", "sync.Mutex locked twice on one goroutine (self-deadlock)", fr, nil)
@@ -1031,6 +1032,7 @@ func extMutexTryLock(fr *frame, args []value) value {
 
 func extMutexUnlock(fr *frame, args []value) value {
 	s := mutexState(fr, args[0])
+	fr.i.px.syncPoint(fr, nil)
 	if (*s).(int32) == 0 {
 		panic(targetPanic{runtimeError("fatal error: sync: unlock of unlocked mutex")})
 	}
@@ -1093,11 +1095,13 @@ func ptrTo(t types.Type) types.Type {
 
 func extAtomicValueLoad(fr *frame, args []value) value {
 	p := args[0].(*value)
+	fr.i.px.syncPoint(fr, nil)
 	return (*p).(structure)[0]
 }
 
 func extAtomicValueStore(fr *frame, args []value) value {
 	p := args[0].(*value)
+	fr.i.px.syncPoint(fr, nil)
 	(*p).(structure)[0] = args[1]
 	return nil
 }
@@ -1107,6 +1111,7 @@ func extAtomicLoad(fr *frame, args []value) value {
 	if p == nil {
 		derefNil(fr)
 	}
+	fr.i.px.syncPoint(fr, nil)
 	return *p
 }
 
@@ -1115,12 +1120,14 @@ func extAtomicStore(fr *frame, args []value) value {
 	if p == nil {
 		derefNil(fr)
 	}
+	fr.i.px.syncPoint(fr, nil)
 	*p = args[1]
 	return nil
 }
 
 func extAtomicSwap(fr *frame, args []value) value {
 	p := args[0].(*value)
+	fr.i.px.syncPoint(fr, nil)
 	old := *p
 	*p = args[1]
 	return old
@@ -1131,6 +1138,7 @@ func extAtomicCAS(fr *frame, args []value) value {
 	if p == nil {
 		derefNil(fr)
 	}
+	fr.i.px.syncPoint(fr, nil)
 	var eq bool
 	switch o := args[1].(type) {
 	case unsafe.Pointer:
